@@ -27,12 +27,12 @@ Definition headers_wire_ok (items : list (pystr * pystr)) : bool :=
 
 (* PREMISE (to be discharged by C01): decoding the datagram built from a start line and a wire-safe header
    dict, received at [now] from an unscoped address, yields a header map that is a well-formed
-   CaseInsensitiveDict and reads, under every case-folded name, like [decoded_view]: the headers as sent,
+   CaseInsensitiveDict and reads, under case-folded name the tracker reads ([tracker_reads]), like [decoded_view]: the headers as sent,
    _udn = the uuid part of USN, _timestamp = now. *)
 Definition decode_premise (dec : pystr -> list (pystr * pystr) -> Z -> hdrs) : Prop :=
-  forall line items now, headers_wire_ok items = true ->
+  forall line items now, In line [response_line; notify_line] -> headers_wire_ok items = true ->
     HInv (dec line items now) /\
-    forall lk, str_eqb k_source lk = false -> hget (dec line items now) lk = item_get (decoded_view items now) lk.
+    forall lk, tracker_reads lk = true -> hget (dec line items now) lk = item_get (decoded_view items now) lk.
 
 (* the model's own decoder instance satisfies it *)
 Lemma low_names_view items now :
@@ -80,7 +80,7 @@ Definition model_dec (line : pystr) (items : list (pystr * pystr)) (now : Z) : h
   mk_hdrs (decoded_view items now).
 Lemma model_dec_premise : decode_premise model_dec.
 Proof.
-  intros line items now H. unfold model_dec. destruct (mk_hdrs_ok _ (view_items_ok items now H)) as [Hi Hg].
+  intros line items now _ H. unfold model_dec. destruct (mk_hdrs_ok _ (view_items_ok items now H)) as [Hi Hg].
   split; [exact Hi|]. intros lk _. apply Hg.
 Qed.
 
@@ -336,13 +336,17 @@ Section Compose.
     Hypothesis DEC : decode_premise dec.
     Variable ipver : pystr -> option N.
 
+    Lemma msg_line_in m : In (msg_line m) [response_line; notify_line].
+    Proof. unfold msg_line. destruct (m_kind m); cbn; auto. Qed.
+
     Lemma dec_reads m now src : msg_wf cfg m -> wire_value_ok (m_nts m) = true ->
       let h := dec (msg_line m) (msg_items cfg m) now in
-      (forall lk, str_eqb k_source lk = false -> hget h lk = item_get (decoded_view (msg_items cfg m) now) lk) /\
+      (forall lk, tracker_reads lk = true -> hget h lk = item_get (decoded_view (msg_items cfg m) now) lk) /\
       reads_as (with_source h src) (decoded_view (msg_items cfg m) now).
     Proof.
-      intros W N h. destruct (DEC (msg_line m) (msg_items cfg m) now (msg_wire m W N)) as [Hi Hr]. fold h in Hi, Hr.
-      split; [exact Hr|]. intros lk Hne. destruct (with_source_get h src lk Hi) as [_ E]. rewrite E, Hne. now apply Hr.
+      intros W N h. destruct (DEC (msg_line m) (msg_items cfg m) now (msg_line_in m) (msg_wire m W N)) as [Hi Hr]. fold h in Hi, Hr.
+      split; [exact Hr|]. intros lk Hrd. pose proof (tracker_reads_not_source lk Hrd) as Hne.
+      destruct (with_source_get h src lk Hi) as [_ E]. rewrite E, Hne. now apply Hr.
     Qed.
 
     Lemma fst_on_srch t h :
@@ -374,7 +378,7 @@ Section Compose.
       destruct (unsee_advertisement t (with_source h src_advertisement)) as [t' [[[? ?] ?]|]]; reflexivity.
     Qed.
 
-    Lemma not_discover h D : (forall lk, str_eqb k_source lk = false -> hget h lk = item_get D lk) ->
+    Lemma not_discover h D : (forall lk, tracker_reads lk = true -> hget h lk = item_get D lk) ->
       item_get D k_man = None -> is_discover h = false.
     Proof. intros Hr Hm. unfold is_discover, hstr. rewrite (Hr k_man eq_refl), Hm. reflexivity. Qed.
 
